@@ -85,25 +85,32 @@ fn attack(ctx: &Ctx, b: &Bundle) {
     ctx.count("challenges_recomputed", cs.len() as u64);
     let mut found: Vec<(String, String, String)> = vec![];
     let near = |q: &Integer, x: &Integer| Integer::from(q - x).abs() < bound;
+    // secrets of at least 64 bits, indexed by value (binary search instead of a scan per quotient)
+    let big_index = SecretIndex::new(secrets.iter().enumerate().filter(|(_, (_, x))| x.significant_bits() >= 64).map(|(i, (_, x))| (i, x)));
+    // distinct challenge values (the per-base-pair candidates repeat across objects)
+    let mut cs_distinct: Vec<&(String, Integer)> = vec![];
+    {
+        let mut seen = std::collections::HashSet::new();
+        for e in &cs {
+            if e.1 != 0 && seen.insert(e.1.clone()) {
+                cs_distinct.push(e);
+            }
+        }
+    }
     // s / c
     for (p, s) in &ls {
         if s.significant_bits() < 64 {
             continue;
         }
-        for (cn, c) in &cs {
-            if *c == 0 {
-                continue;
-            }
+        for (cn, c) in cs_distinct.iter().map(|e| (&e.0, &e.1)) {
             let q = Integer::from(s / c);
-            for (kind, x) in &secrets {
-                if x.significant_bits() >= 64 && near(&q, x) {
-                    // base index stripped: nisp2sec(a_2,b) -> nisp2sec(a_i,b)
-                    let cl: String = cn.split(':').next().unwrap().chars().map(|ch| if ch.is_ascii_digit() { 'i' } else { ch }).collect();
-                    found.push((path_class(p), format!("challenge[{}]", cl), kind.clone()));
-                }
+            for i in big_index.near(&q, &bound) {
+                // base index stripped: nisp2sec(a_2,b) -> nisp2sec(a_i,b)
+                let cl: String = cn.split(':').next().unwrap().chars().map(|ch| if ch.is_ascii_digit() { 'i' } else { ch }).collect();
+                found.push((path_class(p), format!("challenge[{}]", cl), secrets[i].0.clone()));
             }
         }
-        ctx.count("divisions", cs.len() as u64);
+        ctx.count("divisions", cs_distinct.len() as u64);
     }
     // small secrets (a hidden attribute may be 0, 1, ..): the response divided by the challenge of its OWN
     // sub-proof must still be at least 2^64 away, i.e. the blinding term alone exceeds c * 2^64
@@ -143,10 +150,8 @@ fn attack(ctx: &Ctx, b: &Bundle) {
             if q.significant_bits() < 64 {
                 continue;
             }
-            for (kind, x) in &secrets {
-                if x.significant_bits() >= 64 && near(&q, x) {
-                    found.push((path_class(p), format!("response[{}]", path_class(p2)), kind.clone()));
-                }
+            for i in big_index.near(&q, &bound) {
+                found.push((path_class(p), format!("response[{}]", path_class(p2)), secrets[i].0.clone()));
             }
         }
         ctx.count("divisions", ls.len() as u64);
@@ -216,9 +221,9 @@ pub fn scenarios(ctx: &Ctx) -> Vec<Scenario> {
     v.push(scenario("CL1024/large-n", move |c| {
         let mut r = c.rng("c19-large", 0);
         let shapes: Vec<(usize, Vec<usize>)> = if quick {
-            vec![(70, vec![5, 64]), (33, vec![32])]
+            vec![(70, vec![5, 64]), (33, vec![32]), (48, (0..45).collect())]
         } else {
-            vec![(70, vec![5, 64]), (96, vec![31, 69, 95]), (33, vec![32]), (130, vec![0, 64, 128, 129]), (17, vec![16])]
+            vec![(70, vec![5, 64]), (96, vec![31, 69, 95]), (33, vec![32]), (130, vec![0, 64, 128, 129]), (17, vec![16]), (48, (0..45).collect()), (70, (0..70).collect())]
         };
         let bundles = large_bundles::<CL1024Sha256>(c, &mut r, &shapes);
         c.count("proofs_attacked", bundles.len() as u64);
